@@ -1393,7 +1393,7 @@ Proof.
     split; [exact Hn1|]. simpl. auto.
   - destruct (negb indef); simpl; [auto|].
     destruct (Zlen l =? NC_MAX_INT) eqn:E; simpl; [auto|].
-    rewrite Zlen_app. unfold Zlen at 2. simpl. split; [lia|].
+    rewrite Zlen_snoc. split; [lia|].
     apply Forall_app. split; [assumption|]. constructor; [|constructor]. split; simpl; auto.
 Qed.
 
@@ -1558,6 +1558,9 @@ Proof. intros until nm. unfold rename_var_pre. intro H. pre_split H. Qed.
 Lemma nfc_ok : forall nm, name_pre nm = NC_NOERR -> Zlen (nfc nm) <= NC_MAX_INT.
 Proof. intros nm H. apply nfc_len, name_pre_len. assumption. Qed.
 
+Lemma Zlen_snoc : forall A (l : list A) x, Zlen (l ++ [x]) = Zlen l + 1.
+Proof. intros. rewrite Zlen_app. reflexivity. Qed.
+
 (* ---------- every operation of the linear model keeps the header representable ---------- *)
 Notation shdr r := (sf_hdr (fst (fst r))).
 
@@ -1570,7 +1573,7 @@ Proof.
   apply negb_eqb_false, def_dim_pre_ok in E. destruct E as (E1 & E2 & E3 & E4).
   destruct (find_name (nfc nm) (map d_name (h_dims (sf_hdr f)))); [exact Hok|].
   destruct Hok as (Hf & Hn & H1 & H2 & H3 & H4 & H5 & H6). unfold hdr_ok. simpl.
-  rewrite Zlen_app. unfold Zlen at 2. simpl.
+  rewrite Zlen_snoc.
   split; [assumption|]. split; [assumption|]. split; [lia|]. split; [|tauto].
   apply Forall_app. split; [assumption|]. constructor; [|constructor].
   split; simpl; [apply nfc_ok; assumption | tauto].
@@ -1587,7 +1590,7 @@ Proof.
   destruct (find_name (nfc nm) (map v_name (h_vars (sf_hdr f)))); [exact Hok|].
   destruct (negb (def_var_post (h_dims (sf_hdr f)) t dimids =? NC_NOERR)) eqn:E4; [exact Hok|].
   apply negb_eqb_false, (def_var_post_ok _ _ _ H1) in E4.
-  unfold hdr_ok. simpl. rewrite Zlen_app. unfold Zlen at 2. simpl.
+  unfold hdr_ok. simpl. rewrite Zlen_snoc.
   repeat (split; [assumption|]). split; [lia|].
   apply Forall_app. split; [assumption|]. constructor; [|constructor].
   unfold var_ok. simpl. split; [apply nfc_ok; assumption|]. split; [assumption|]. split; [assumption|].
